@@ -20,7 +20,11 @@ LEVEL = "exploration"
 QUICK_SHARDS = 4
 RULE = (
     "pinball: samples of 1-2000 values (thorough: 10^4; lattice values with "
-    "ties, unit, heavy-tailed sign*a*10^k, arbitrary floats), estimates = "
+    "ties, unit, heavy-tailed sign*a*10^k, arbitrary floats) and, in 1 of 12 "
+    "cases of every generated suite, n in {4095, 4096, 4097, 5000, 8191, "
+    "8193, 10000} tiled from a drawn pool with a trend (tiled / sorted / "
+    "reversed order; for the minimiser ~60 distinct values plus the order "
+    "statistics around tau*n are the candidates), estimates = "
     "observation + a drawn offset (0 / positive / negative) per element, "
     "1-5 taus in (0,1) given as scalar / list / (k,) / (1,k) array, y_tau as "
     "(n,k) / (n,) / (n,1), y_test as (n,) / (n,1), float or int dtype; "
@@ -64,6 +68,38 @@ def clean(v):
     return v
 
 
+BIG_N = [4095, 4096, 4097, 5000, 8191, 8193, 10000]
+
+
+@st.composite
+def sample_vector(draw, large, kinds=("lattice", "unit", "heavy", "wide"),
+                  small=40):
+    """-> (kind, values): G.long_vector, and in 1 of 12 cases a sample of
+    4095..10^4 values (the property quantifies up to 10^4) tiled from a drawn
+    pool with a trend, in tiled / sorted / reversed order"""
+    if draw(st.integers(0, 11)) == 0:
+        kind = draw(st.sampled_from(kinds))
+        pool = draw(G.value_pool(kind, 5, 40))
+        n = draw(st.sampled_from(BIG_N))
+        vals = G.tile(pool, n, draw(st.integers(1, 97)),
+                      draw(st.integers(0, 97)),
+                      draw(st.sampled_from([0.0, 0.25, 1.0, -3.5])))
+        order = draw(st.sampled_from(["tiled", "sorted", "reversed"]))
+        if order != "tiled":
+            vals = sorted(vals, reverse=(order == "reversed"))
+        return kind, vals
+    return draw(G.long_vector(kinds=kinds, small=small, large=large))
+
+
+def label_size(ctx, n):
+    if n >= 100:
+        ctx.label("n>=100")
+    if n > 4096:
+        ctx.label("n>4096")
+        if n % 4096:
+            ctx.label("n>4096-not-multiple-of-4096")
+
+
 tau_strategy = st.one_of(
     st.sampled_from(TAU_SPECIAL),
     st.floats(0.001, 0.999, allow_nan=False),
@@ -75,7 +111,7 @@ tau_strategy = st.one_of(
 # --------------------------------------------------------------------------
 @st.composite
 def pinball_cases(draw, large=2000):
-    kind, y = draw(G.long_vector(large=large))
+    kind, y = draw(sample_vector(large))
     y = [clean(v) for v in y]
     n = len(y)
     k = draw(st.sampled_from([1, 1, 2, 3, 5]))
@@ -152,8 +188,7 @@ def check_pinball(case, ctx):
               "ytest-" + case["ytest_shape"], "taus-" + case["taus_form"],
               "dtype-" + case["dtype"])
     ctx.label("vector-tau" if k > 1 else "single-tau")
-    if n >= 100:
-        ctx.label("n>=100")
+    label_size(ctx, n)
     if len(set(case["y_test"])) < n:
         ctx.label("ties")
     below = yt < y.reshape(-1, 1)
@@ -203,7 +238,7 @@ def check_pinball(case, ctx):
 # --------------------------------------------------------------------------
 @st.composite
 def minimiser_cases(draw, large=300):
-    kind, y = draw(G.long_vector(small=30, large=large))
+    kind, y = draw(sample_vector(large, small=30))
     y = [clean(v) for v in y]
     n = len(y)
     taus = draw(st.lists(st.one_of(
@@ -218,16 +253,24 @@ def check_minimiser(case, ctx):
     from typhon.retrieval import scores
     y = np.array(case["sample"], dtype=float)
     n = y.size
+    ys = sorted(case["sample"])
     cand = sorted(set(case["sample"]))
+    if len(cand) > 400:
+        # large sample: every (K/60)-th distinct value plus the order
+        # statistics around tau*n (so that a tau-quantile is a candidate)
+        sub = set(cand[::max(1, len(cand) // 60)]) | {cand[-1]}
+        for tau in case["taus"]:
+            j = int(Fraction(tau) * n)
+            sub.update(ys[max(0, min(n - 1, i))] for i in (j - 1, j, j + 1))
+        cand = sorted(sub)
+        ctx.label("candidates-subsampled")
     K = len(cand)
     ctx.label("kind-" + case["kind"])
-    if K < n:
+    if len(set(case["sample"])) < n:
         ctx.label("ties")
     if K == 1:
         ctx.label("constant-sample")
-    if n >= 100:
-        ctx.label("n>=100")
-    ys = sorted(case["sample"])
+    label_size(ctx, n)
     lt = np.searchsorted(ys, cand, side="left")     # #{y < c}
     le = np.searchsorted(ys, cand, side="right")    # #{y <= c}
     y_tau = np.tile(np.array(cand, dtype=float), (n, 1))
@@ -311,8 +354,8 @@ def nonzero(v):
 
 @st.composite
 def mape_cases(draw, large=2000):
-    kind, t = draw(G.long_vector(
-        kinds=("lattice", "positive", "heavy", "wide"), large=large))
+    kind, t = draw(sample_vector(
+        large, kinds=("lattice", "positive", "heavy", "wide")))
     t = [nonzero(v) for v in t]
     n = len(t)
     mode = draw(st.sampled_from(["perfect", "high", "low", "general",
@@ -358,8 +401,7 @@ def check_mape(case, ctx):
               "pred-" + case["pred_shape"])
     if (t < 0).any():
         ctx.label("negative-truth")
-    if n >= 100:
-        ctx.label("n>=100")
+    label_size(ctx, n)
     d = pr.astype(LD) - t.astype(LD)
     terms_b = LD(100) * d / t.astype(LD)
     terms_m = np.abs(terms_b)
